@@ -10,12 +10,51 @@ ASSUMPTIONS = ['filters are outside the L3 model (their soundness is C10); the B
                'was built from (C09)', 'background dumps happen at the quiescence points the harness forces (hook H3)']
 
 
+def gen_wide(rng):
+    """Blobs whose index file has several leaves (more than 4096 / (57 + K) headers), most keys with two or three
+    versions (ties and deletion markers among them), so that the versions of some keys straddle leaf boundaries; every
+    key is read while the index is in memory, after the blob was closed and its index dumped, and after a restart."""
+    K = rng.choice([4, 4, 8, 32])
+    per = 4096 // (57 + K)
+    nkeys = rng.choice([per // 2 + 3, per - 5, per + 7, 2 * per - 3])
+    L = ['cfg K=%d dup=1 group=%d bloom=%s init=%s runtime=%s' % (K, rng.choice([2, 8]), 'none', rng.choice(['eager', 'lazy']), rng.choice(['mt', 'ct'])), 'open']
+    keys = [(i * 3 + 1).to_bytes(K, 'big').hex() for i in range(nkeys)]
+    seed = 0
+    ops = []
+    for k in keys:
+        for _ in range(rng.choice([1, 2, 2, 2, 3])):
+            seed += 1
+            if rng.random() < 0.06:
+                ops.append('D %s %d - 0' % (k, rng.choice([5, 7, 9])))
+            else:
+                ops.append('W %s %d - %d %d' % (k, rng.choice([5, 7, 9]), rng.choice([5, 9]), seed))
+    rng.shuffle(ops)
+    qs = []
+    for k in keys:
+        qs += ['R %s' % k, 'C %s' % k]
+    cut = rng.choice([len(ops), len(ops), len(ops) * 2 // 3])
+    L += ops[:cut]
+    L += qs
+    L.append('close_active')
+    L.append('quiesce')
+    L += qs
+    L += ops[cut:]
+    L += qs
+    L.append('close')
+    L.append(rng.choice(['rmindex 0', 'nop']))
+    L.append('open')
+    L += qs
+    L.append('close')
+    return '\n'.join(L) + '\n'
+
+
 def gen(tier, rng):
     n = 260 if tier == 'quick' else 5000
     out = []
     for i in range(n):
         g = Gen(rng, queries=('R', 'C'), bg=0.02)
         out.append(('hist%05d' % i, g.build()))
+    out += [('wide%05d' % i, gen_wide(rng)) for i in range(n // 20)]
     return out
 
 
